@@ -316,6 +316,10 @@ fn group(rep: &mut Report, v: &Value) {
         if !td_eq(&((a + b) + scaled), &(a + (b + scaled))) { return Err("addition is not associative".into()); }
         if !td_eq(&(a + (-a)), &TimeDelta { months: 0, inner: Duration::zero() }) { return Err("a + (-a) is not zero".into()); }
         if !td_eq(&(a * k + b * k), &((a + b) * k)) { return Err("scaling does not distribute over addition".into()); }
+        // division undoes scaling: (a * k) / a = k for a month-free, non-zero a (TimeArith.tla DivUndoesScale)
+        if a.months == 0 && a.inner != Duration::zero() && (a * k) / a != k {
+            return Err(format!("(a * {k}) / a = {}", (a * k) / a));
+        }
         Ok(())
     });
     judge(rep, "timedelta ops", "timedelta ops", &key, "TimeDelta", r, v);
